@@ -25,6 +25,9 @@ ASSUMPTIONS = ["values given to set_params always come from a sibling configurat
 TOLERANCES = {"behaviour after set_params": "exact for deterministic models (one thread, one seed); 1e-9 for NMF"}
 
 
+HOLDERS = ("SkBase", "SkBaseLearner", "SkBaseClassifier", "SkBaseRegressor", "SkBaseTransform")
+
+
 def _related(k, key):
     if k == key or k.startswith(key + "__") or key.startswith(k + "__"):
         return True
@@ -186,6 +189,9 @@ def check(case):
             r = _guard("set_all", lambda: x.set_params(**params), dict(facts, key_kind="all"))
             require(r is x, "set_params:does-not-return-self", "set_params(**other.get_params()) returned %r" % type(r).__name__, dict(facts, key_kind="all"))
             after = R.params_image(x)
+            if name in HOLDERS:
+                # free-form kwargs holders: the receiver may keep keys of its own, but it reports every key it was given
+                after = {k: v for k, v in after.items() if k in want}
             require(after == want, "set_all:params-differ", _diff(after, want), facts)
             if before != want:
                 changed_something = True
@@ -200,6 +206,8 @@ def check(case):
         want = {k: R.norm_param(v) for k, v in params.items()}
         _guard("set_all", lambda: dst.set_params(**ordered), dict(facts, key_kind="all", order=order_name))
         after = R.params_image(dst)
+        if name in HOLDERS:
+            after = {k: v for k, v in after.items() if k in want}
         require(after == want, "set_all:params-differ:" + order_name + "-keys", _diff(after, want), dict(facts, order=order_name))
 
     # ---- behaves identically: B configured from A's params == A
